@@ -23,6 +23,7 @@ PROPERTY = "C17"
 LEVEL = "model_checking"
 
 STATION = 5
+LONG_BUSY = [99, 100, 101, 150]     # polls; thorough adds 1000
 RESERVED = {41, 50, 51, 0xffff}
 
 
@@ -319,6 +320,9 @@ def drive(case, script, raw_addrs, mode="parts", log=False, budget=None):
         # event-loop iterations: a correct run needs < 8 per image byte (4-byte reads, 3 busy
         # polls) plus a constant for the SDO uploads and the single reads
         budget = 4000 + 30 * len(image)
+        # ... and for every busy poll the script will ask for (one bus round trip each)
+        per_cmd = -(-sum(script["busy"]) // len(script["busy"]))
+        budget += 8 * (script["init"] + (len(image) // 4 + 60) * per_cmd)
     st = simbus.SimTerminal("T", station=STATION if mode == "parts" else 0)
     st.eeprom = image
     st.sii_8byte = bool(script["cap8"])
@@ -455,18 +459,27 @@ def drive(case, script, raw_addrs, mode="parts", log=False, budget=None):
 
 # ---------------------------------------------------------------------------------------------
 
-def enumerate_scripts(ctx, wd, maxbusy, patlen, maxinit):
-    T.write_cfg(wd, "scripts.cfg", f"""SPECIFICATION SSpec
-CONSTANTS MaxBusy = {maxbusy}
+def enumerate_scripts(ctx, wd, short, long, minlongs, maxlongs, patlen, inits, tag="scripts"):
+    """all interface scripts within the bound, from TLC (SiiScripts)"""
+    from math import comb
+
+    def tset(xs):
+        return "{" + ", ".join(str(x) for x in sorted(xs)) + "}"
+    T.write_cfg(wd, tag + ".cfg", f"""SPECIFICATION SSpec
+CONSTANTS Short = {tset(short)}
+          Long = {tset(long)}
+          MinLongs = {minlongs}
+          MaxLongs = {maxlongs}
           PatLen = {patlen}
-          MaxInit = {maxinit}
+          Inits = {tset(inits)}
 INVARIANT Emit
 CHECK_DEADLOCK FALSE
 """)
-    res = T.require_clean(T.run(wd, "SiiScripts", "scripts.cfg", workers=1, timeout=300), "SiiScripts")
+    res = T.require_clean(T.run(wd, "SiiScripts", tag + ".cfg", workers=1, timeout=300), "SiiScripts")
     ctx.tlc_stats(res)
     scripts = [r[0] for r in T.printed_records(res, "SCRIPT")]
-    want = 2 * (maxinit + 1) * (maxbusy + 1) ** patlen
+    want = 2 * len(inits) * sum(comb(patlen, j) * len(long) ** j * len(short) ** (patlen - j)
+                                for j in range(minlongs, maxlongs + 1))
     if len(scripts) != want:
         raise T.MachineryError(f"SiiScripts: {len(scripts)} scripts, expected {want}")
     scripts.sort(key=lambda s: json.dumps(s, sort_keys=True))
@@ -634,9 +647,16 @@ def run(ctx):
     lap('mc_sii')
     # 2. interface scripts from TLC
     maxbusy, patlen, maxinit = (2, 2, 1) if q else (3, 3, 2)
-    scripts = enumerate_scripts(ctx, wd, maxbusy, patlen, maxinit)
+    scripts = enumerate_scripts(ctx, wd, range(maxbusy + 1), [], 0, 0, patlen, range(maxinit + 1))
+    # "however long it reports busy": long waits (around and far beyond any poll limit a master
+    # might have) after one read command of a pattern of 5 - at every position, so that they hit
+    # first and second commands of 4-byte reads alike - and before the first command (init)
+    long_d = LONG_BUSY if q else LONG_BUSY + [1000]
+    long_i = [0, 150] if q else [0, 150, 1000]
+    long_scripts = enumerate_scripts(ctx, wd, [0], long_d, 1, 1, 5, long_i, tag="longscripts")
     lap('scripts')
-    ctx.extra["scripts"] = dict(n=len(scripts), MaxBusy=maxbusy, PatLen=patlen, MaxInit=maxinit)
+    ctx.extra["scripts"] = dict(n=len(scripts), MaxBusy=maxbusy, PatLen=patlen, MaxInit=maxinit,
+                                long=dict(n=len(long_scripts), durations=long_d, inits=long_i, PatLen=5))
     # 3. images x scripts on the real code
     cases = build_cases(ctx)
     per_image = 6 if q else 8
@@ -657,9 +677,17 @@ def run(ctx):
             # two of three runs call the three methods directly, the third goes through the real
             # call chain EBPFTerminal.initialize -> apply_eeprom
             c["runs"].append(drive(c, s, raw_addresses(c, rr), mode="apply" if j % 3 == 2 else "parts"))
+    # every long-busy script on a small image (sync-manager and PDO categories included), 8- and
+    # 4-byte interfaces, directly and through apply_eeprom in turn
+    small = [c for c in cases if c["gen"].startswith("eeprom-small/")]
+    for k, s in enumerate(long_scripts):
+        c = small[k % len(small)]
+        rr = random.Random(f"C17/rawlong/{c['gen']}/{k}")
+        c["scripts"].append(s)
+        c["runs"].append(drive(c, s, raw_addresses(c, rr), mode="apply" if k % 3 == 2 else "parts"))
     lap('drive')
     # 4. register-level traces of a subset validated against the protocol
-    validate_protocol(ctx, wd, cases, scripts)
+    validate_protocol(ctx, wd, cases, scripts + long_scripts[::5 if q else 2])
     lap('protocol_traces')
     # 5. TLC judges
     verdicts = judge(ctx, wd, cases)
@@ -719,5 +747,6 @@ def run(ctx):
 def replay(ctx, case):
     c = dict(case)
     rr = random.Random(f"C17/raw/{c['gen']}")
-    r = drive(c, c["script"], raw_addresses(c, rr), mode=c.get("mode", "parts"))
+    addrs = [x["addr"] for x in c.get("run", {}).get("raw", []) if x.get("addr", -1) >= 0]
+    r = drive(c, c["script"], addrs or raw_addresses(c, rr), mode=c.get("mode", "parts"))
     print(json.dumps(dict(eeprom=r["eeprom"], sm=r["sm"], pdos=r["pdos"], raw=r["raw"]))[:4000])
